@@ -37,6 +37,12 @@ class Node:
         return where
 
 
+def _kind_preserving(c):
+    """Result adaptors whose result is Ok exactly when the receiver is: map_err, map, inspect, inspect_err"""
+    p = c['path']
+    return p.startswith('std::result::Result') and p.rsplit('::', 1)[-1].split('<')[0] in ('map_err', 'map', 'inspect', 'inspect_err')
+
+
 class _DropSite(int):
     """block index of a drop terminator in a context frame, distinguished by the Result kind of the path that reaches it"""
     def __new__(cls, bb, kind):
@@ -146,7 +152,12 @@ class Trace:
         t = b['term']
         if t['k'] == 'call' and t['dest']['l'] == 0 and not t['dest']['pr']:
             c = callee_of(t)
+            if c and isinstance(kind, str) and kind.endswith('!') and _kind_preserving(c):
+                # `_0 = inlined_call(..).map_err(f)`: the result keeps the side (Ok / Err) the inlined call returned on (see the return handler)
+                return kind[:-1]
             cur = 'err' if (c and c['path'] == FROM_RESIDUAL) else 'unk'
+        if isinstance(cur, str) and cur.endswith('!'):
+            cur = 'unk'
         return cur
 
     def _build(self):
@@ -213,6 +224,13 @@ class Trace:
                     rk = kind_after
                     if ct.get('dest') is not None and ct['dest']['l'] == 0 and not ct['dest']['pr']:
                         ckind = rk      # `_0 = callee(..)`: the caller's result kind is the callee's
+                    elif ct.get('dest') is not None and not ct['dest']['pr'] and rk in ('ok', 'err') and ct['target'] is not None:
+                        # `_0 = callee(..).map_err(f)`: the continuation block applies a side-preserving adaptor to the callee's result and stores it in `_0`
+                        tt = cfn.term(ct['target'])
+                        c2 = callee_of(tt) if tt['k'] == 'call' else None
+                        if c2 and _kind_preserving(c2) and tt['dest']['l'] == 0 and not tt['dest']['pr'] and tt['args'] and op_local(tt['args'][0]) == ct['dest']['l'] \
+                                and not cfn.blocks[ct['target']]['stmts']:
+                            ckind = rk + '!'
                     if rs and rk == 'ok' and rs['ok'] is not None:
                         m, new = self._node(cctx, cfn, rs['ok'], ckind)
                         link(n, m, new)
